@@ -138,11 +138,29 @@ def build_query(case, objs, vs=None):
 
     sels = [opnd(s) for s in case["sels"]]
     c = cond(case["cond"]) if case["cond"] is not None else None
+    qkw = {}
+    if case.get("quant"):
+        # an(..., quantification=...): the count is checked while the results are handed out, one by one
+        from krrood.entity_query_language import result_quantification_constraint as rq
+        k = case["quant"]
+        qkw["quantification"] = rq.Range(rq.AtLeast(k[1]), rq.AtMost(k[2])) if k[0] == "Range" else getattr(rq, k[0])(k[1])
     if len(sels) == 1 and not case.get("force_setof"):
         d = entity(sels[0], c) if c is not None else entity(sels[0])
-        return an(d), sels, True
+        return an(d, **qkw), sels, True
     d = set_of(sels, c) if c is not None else set_of(sels)
-    return an(d), sels, False
+    return an(d, **qkw), sels, False
+
+
+def holding_constraint(nrows: int, rng) -> list:
+    """a quantification constraint of one of the four kinds whose bounds hold for a query with nrows results"""
+    kind = rng.choice(["AtLeast", "AtMost", "Exactly", "Range"])
+    if kind == "AtLeast":
+        return ["AtLeast", rng.randint(0, nrows)]
+    if kind == "AtMost":
+        return ["AtMost", nrows + rng.randint(0, 2)]
+    if kind == "Exactly":
+        return ["Exactly", nrows]
+    return ["Range", rng.randint(0, nrows), nrows + rng.randint(0, 2)]
 
 
 def _pull(it, n, sels, single):
@@ -849,7 +867,8 @@ def run(tier: str, seed: int, replay=None) -> int:
                 "let-variables, built after the first evaluation; log compared with the model's trace_seq. (3) construction through the match API: "
                 "an(entity_matching(T, generator)(kw...)) with literals, let-variables over generator domains, nested match / select / match_any / "
                 "match_all as keyword values; the construction log must be empty. (4) 150 (quick) / 2500 (thorough) queries with exists / for_all "
-                "(profile quant) are part of families 1 and 2 since the model covers them. (5) flatten: item = flatten(<logging generator>) or "
+                "(profile quant) are part of families 1 and 2 since the model covers them. (4b) every third query again as an(..., quantification=AtLeast / "
+                "AtMost / Exactly / Range) with bounds that hold, for every n: same expected log as the plain query. (5) flatten: item = flatten(<logging generator>) or "
                 "flatten(h.stream) with h over holders whose attribute is such a generator, one-variable conditions over item, every n. "
                 "non-trivial = at least one domain element was pulled (families 1, 2, 4) / a keyword value is a variable (family 3)")
     ok_spec, log = core.coq_make(["Base/Sx.vo", "Eql/TraceSpec.vo"])
@@ -1005,6 +1024,50 @@ def run(tier: str, seed: int, replay=None) -> int:
                                       "event-for-event comparison sees"})
     elif model_ok:
         rep.oblige("correspondence:model", True, f"{dist['log_eq_model_pairs']} (query, n) logs equal to the model's trace_n event for event")
+
+    # ---- result quantifiers with a constraint that holds: an(..., quantification=AtLeast/AtMost/Exactly/Range) counts the results
+    #      while it hands them out, so the log for every n is that of the plain query (same model trace)
+    qc_cases: List[dict] = []
+    qc_src: List[int] = []
+    if replay is None:
+        rc = core.Rng(seed * 1000003 + 29)
+        for k, (c, i) in enumerate(zip(cases, impls)):
+            if "exc" not in i and k % 3 == 0:
+                qc_cases.append(dict(c, quant=holding_constraint(len(i["ks"]) - 2, rc.fork(k))))
+                qc_src.append(k)
+    qc_impl = run_impl_many(qc_cases) if qc_cases else []
+    qran = [j for j, i in enumerate(qc_impl) if "exc" not in i]
+    qc_spec = dict(zip(qran, coq_spec([qc_cases[j] for j in qran], [qc_impl[j] for j in qran]))) if qran else {}
+    qcdist = {"queries": len(qc_cases), "pairs": 0, "AtLeast": 0, "AtMost": 0, "Exactly": 0, "Range": 0, "log_eq_model_pairs": 0, "exceptions": 0}
+    qc_bad = []
+    for j, (c, i) in enumerate(zip(qc_cases, qc_impl)):
+        qcdist[c["quant"][0]] += 1
+        m = models.get(qc_src[j])
+        jj = judge(c, i, qc_spec.get(j), m)
+        if "exc" in i:
+            qcdist["exceptions"] += 1
+            qc_bad.append((c, jj, i))
+            continue
+        for n, l in enumerate(i["ks"]):
+            qcdist["pairs"] += 1
+            rep.count(json.dumps(["qc", c, n], sort_keys=True), n >= 1 and any(e[0] == 0 for e in l))
+            if m is not None and n < len(m[2]) and canon_log(l) == m[2][n]:
+                qcdist["log_eq_model_pairs"] += 1
+        if jj["code"] != 0 or jj["diff"] is not None:
+            kp = (not jj["f10"]) and jj["code"] == 4 and jj["diff"] is None       # outside F10 (for_all): the demand bit is not claimed
+            if not kp:
+                qc_bad.append((c, jj, i))
+    for c, jj, i in sorted(qc_bad, key=lambda t: len(json.dumps(t[0])))[:2]:
+        rep.violation({"kind": "counterexample", "family": "quantification", "case": c, "quantification": c["quant"],
+                       "spec_code": jj["code"], "spec_misses": explain(jj["code"]) + ([f"raised {jj.get('exc')}"] if "exc" in jj else []),
+                       "impl": {kk: (canon_log(v) if kk in ("full", "build") else [canon_log(l) for l in v] if kk == "ks" else v) for kk, v in i.items()},
+                       "first_difference_from_model": jj["diff"], "python": snippet(c, 1),
+                       "explanation": "an(entity/set_of(...), quantification=<case.quant>) with a constraint whose bounds hold: the count is checked while the "
+                                      "results are handed out, so pulling n results must cause exactly the events of the plain query (the model's trace_n). "
+                                      "events [0,x,i] pull, [1,x] generator finished, [2,obj,attr] getattr, [3,row] result; ks[n] = log after pulling n results"})
+    if len(qc_bad) > 2:
+        rep.note(f"{len(qc_bad)} constrained queries miss the Spec or the model's log (2 smallest reported)")
+    rep.extra["quantification_constraints"] = qcdist
 
     # ---- re-evaluation: pull n results, abandon the iterator, evaluate again (same object / rebuilt / another query over the same variables)
     if replay is None:
